@@ -83,7 +83,7 @@ SxgDefaultPipelines ==
        v \in SxgVers \cup {"default"}, via \in {"file", "stdin", "http"}, dv \in {"default", "same"} }
 HarPipelines ==
   { << Step("gen-bundle -har", {"har"}, [kind |-> "bundle", sign |-> "none", ver |-> v], [ver |-> v, har |-> h]),
-       Step("dump-bundle", {"bundle"}, [kind |-> "text"], [x |-> 0]) >> : v \in BundleVers, h \in {"mixed"} }
+       Step("dump-bundle", {"bundle"}, [kind |-> "text"], [x |-> 0]) >> : v \in BundleVers, h \in {"mixed", "statuses"} }     \* statuses: entries whose status is 0, 99, 100, 999, 1000 (only 100..999 are responses)
 \* the inputs that come over the network, against an origin server on the loopback interface.
 \* gen-bundle -URLList: one exchange per listed URL (blank lines and # comments skipped, surrounding white space trimmed, a
 \* URL listed twice fetched once), holding what the server answered (after redirects): status, header fields, body
@@ -111,7 +111,12 @@ SxgFetchPipelines ==
   { << Step("gen-certurl", {"pemchain", "ocsp"}, [kind |-> "certcbor"], [ncerts |-> nc, curve |-> "p256", sct |-> FALSE]),
        Step("gen-signedexchange", {"content", "pemchain", "eckey"}, [kind |-> "sxg", ver |-> v], [ver |-> v, certfetch |-> f]),
        Step("dump-signedexchange -verify", {"sxg", "certcbor"}, [kind |-> "text"], [x |-> 0]) >> : v \in SxgVers, nc \in {1, 2}, f \in {"served", "missing", "other"} }
-Pipelines == DirPipelines \cup CertPipelines \cup SxgPipelines \cup HarPipelines \cup SxgFlagPipelines \cup DirSpellingPipelines \cup SxgDefaultPipelines
+\* -manifestURL: b1 bundles carry it in their manifest section; the b2 format has none, so the tool must refuse rather than
+\* write a bundle that silently lacks what was asked for
+ManifestPipelines ==
+  { << Step("gen-bundle -dir", {"dir"}, [kind |-> "bundle", sign |-> "none", ver |-> v], [names |-> n, ver |-> v, base |-> "root", manifest |-> mf]),
+       Step("dump-bundle", {"bundle"}, [kind |-> "text"], [x |-> 0]) >> : v \in BundleVers, n \in {"plain", "nested"}, mf \in {"sameorigin", "query"} }
+Pipelines == ManifestPipelines \cup DirPipelines \cup CertPipelines \cup SxgPipelines \cup HarPipelines \cup SxgFlagPipelines \cup DirSpellingPipelines \cup SxgDefaultPipelines
              \cup UrlListPipelines \cup OcspFetchPipelines \cup SxgViewPipelines \cup SxgFetchPipelines
 
 \* CLOSURE: whenever a later step consumes the kind an earlier step produced, that artefact is one the
